@@ -86,6 +86,7 @@ type Reader struct {
 	idx     index // Index table of seekable offsets
 	chk     chunk // Information about the current chunk
 	err     error // Persistent error
+	done    bool  // Has Close completed successfully?
 
 	// The following fields are embedded here to reduce memory allocations.
 	lr     io.LimitedReader
@@ -285,13 +286,13 @@ func (xr *Reader) Seek(offset int64, whence int) (int64, error) {
 
 // Close ends the XFLATE stream.
 func (xr *Reader) Close() error {
-	if xr.err == errClosed {
+	if xr.done {
 		return nil
 	}
 	if xr.err != nil && xr.err != io.EOF {
 		return xr.err
 	}
-	xr.err = errClosed
+	xr.err, xr.done = errClosed, true
 	return nil
 }
 
